@@ -14,6 +14,8 @@
 -/
 import P2P.Model.Termini
 import P2P.Proofs.TerminiLemmas
+import P2P.Model.ChargeTable
+import P2P.Proofs.ChargeTableAll
 
 namespace P2P.Props.C02
 open P2P P2P.Termini P2P.State P2P.Proofs.Termini
@@ -91,5 +93,47 @@ re-assignment appends the same patch again to the pieces' outer ends: idempotent
 example : (setTermini false false [demo] [false, false, false]).map (·.map (·.map (fun r => (r.id, r.isN, r.isC, r.patches.length)))) =
     some [[(0, true, false, 2), (1, false, true, 1)], [(2, true, false, 1), (3, false, true, 2)]] := by
   decide +kernel
+
+/-! ### the force fields' numbers add up to the formal charge of every state (kernel-checked on
+the regenerated topology and the regenerated final force-field maps; one module per force field,
+P2P/Proofs/ChargeTable*.lean, so that the kernel evaluations run in parallel) -/
+
+open P2P.ChargeTable P2P.Topology P2P.Proofs.ChargeTable
+
+/-- **charge table**: for each of the six force fields and every amino-acid state/position the
+force field parameterises completely, the charges of the state's atoms add up — exactly, in
+integers — to the formal charge the state's name stands for (N-terminal proline excluded: its
+run-time atoms are not those of the definition; PARSE's neutral C-terminal proline excluded: it
+is the refuted cell below). Hence the total charge of every structure whose residues are fully
+parameterised is an integer, the sum of the residues' formal charges. -/
+theorem charge_table :
+    ∀ ff ∈ P2P.Gen.FFCharges.all, ∀ r ∈ aminoDefs,
+      excluded.contains r.name = false → knownNonIntegral.contains (ff.1, r.name) = false →
+      cellOK unit ff.2 r = true := by
+  intro ff hff r hr he hk
+  have h := tableOK_all ff hff
+  rw [tableOK, List.all_eq_true] at h
+  have := h r hr
+  rw [Bool.or_eq_true, Bool.or_eq_true, he, hk] at this
+  rcases this with (h1 | h1) | h1
+  · exact absurd h1 (by decide)
+  · exact absurd h1 (by decide)
+  · exact h1
+
+/-- the table is not vacuous: 516 cells are fully parameterised -/
+theorem charge_table_coverage :
+    P2P.Gen.FFCharges.all.map (fun ff => (ff.1, (aminoDefs.filter (cellCovered ff.2)).length)) =
+      [("AMBER", 73), ("CHARMM", 83), ("PARSE", 144), ("PEOEPB", 70), ("SWANSON", 73), ("TYL06", 73)] :=
+  coverage_all
+
+/-- full strength refuted at one cell: PARSE's neutral C-terminal proline sums to −0.12 e -/
+theorem parse_neutral_cterm_pro_refuted :
+    (match P2P.Gen.FFCharges.PARSE.lookup (str "NEUTRAL-CPRO"), findRes P2P.Gen.Topology.residues (str "NEUTRAL-CPRO") with
+     | some entries, some r => cellSum entries (atomsFor r)
+     | _, _ => none) = some (-12 * 10 ^ (P2P.Gen.FFCharges.unitExp - 2)) :=
+  parse_cpro
+
+example : formalOfName (str "NEUTRAL-CGLU") = -1 ∧ formalOfName (str "NLYS") = 2 ∧ formalOfName (str "CASH") = -1 ∧
+    formalOfName (str "HID") = 0 ∧ formalOfName (str "CYX") = 0 := by decide
 
 end P2P.Props.C02
